@@ -42,6 +42,17 @@ PRE = ["linFCR 3", "linNCPR 2", "linSigma 5", "linHydro 4", "linComp 3 -", "kapp
 
 
 def cases(rng, tier):
+    from ..real import hex6 as _hex6
+    # backend objects built directly from lower / mixed case text
+    for kind_, sq in gen.rand_seqs(rng, 12 if tier == "quick" else 120, 60):
+        raw = "".join(c.lower() if rng.random() < 0.6 else c for c in sq)
+        yield Case(["backendq %s %s" % (_hex6(raw), " ".join(o.split(" "))) for o in OPS], {"kind": "backend-object-from-mixed-case"})
+    # the same query several times in a row on one object
+    for c in gen.repeated_call_cases(rng, 8 if tier == "quick" else 60, ['fcr', 'ncpr', 'kd'], gen.CLAMP_BAND[:8] if False else ()):
+        yield c
+    # very long chains (> 1000 residues, lengths that are not round numbers)
+    for sq in gen.very_long(rng, tier != "quick"):
+        yield Case(["q %s %s%s" % (q.split(" ")[0], sq, "".join(" " + a for a in q.split(" ")[1:])) for q in ['countPos', 'fcr', 'ncpr', 'kd', 'ww', 'uversky', 'ppii hilser', 'mw', 'disorder', 'fer']], {"kind": "very-long"})
     # objects built from sequence files (two per block)
     for c in gen.file_cases(rng, 12 if tier == "quick" else 100, ['countPos', 'countNeg', 'fcr', 'ncpr', 'kd', 'mw', 'len']):
         yield c
